@@ -573,3 +573,13 @@ def run(ck):
               "the listening socket is registered with %s%s: the accept loop takes one connection per wake-up and continues after a failed "
               "accept, so a pending connection whose edge was consumed is never accepted" % (mode or txt, " (the declared default)" if e["args"][3].get("dflt") else ""))
 
+    # ---------------- R17: a connection ends in one way only ----------------
+    ck.rule("C08-R17", "D who-may-call (zero expected)",
+            "the library never half-closes a connection (shutdown(2) on a peer descriptor): a socket whose sending side was shut down "
+            "makes the next write of the server -- the 408 of the idle time-out, for one -- fail with EPIPE, which the drain routine "
+            "takes for 'the release path has already run', so the connection is never told, never released", 1)
+    shut = [(f_, e) for f_ in prog.library_funcs() for e in f_.events("call") if libc(e, "shutdown")]
+    ck.ob("C08-R17", "no-half-close", not shut, (shut[0][1].loc if shut else ""), (shut[0][0] if shut else ""),
+          "no call of shutdown(2) in the library" if not shut else
+          "%s calls shutdown() on a connection's descriptor: the release path is the only way a connection ends" % shut[0][0].name)
+
